@@ -57,6 +57,8 @@ def run(ctx):
     monos = F.monolayers()
     adaptive_records = []
     assemble_records, assemble_errors = [], []
+    span_records = []
+    import span_model
     import assemble_model
     # the listed known findings are re-examined first, on their recorded inputs (a finding that still fails prints its
     # KNOWN-FINDING line on every run; one that no longer fails is only noted)
@@ -145,8 +147,13 @@ def run(ctx):
                 clusters = SBC().get_clusters(a, seed=seed)
             if len(adaptive_records) < 500:
                 adaptive_records.extend(prec.adaptive[:30])
-            if len(assemble_records) < ctx.n(80, 600):
-                assemble_records.extend(prec.assemble[:4])
+            if len(span_records) < ctx.n(24, 200):
+                span_records.extend(prec.span[:2])
+            for r_ in prec.assemble[:4]:      # at most half of the budget to each of the 2D and the 3D routine
+                if sum(1 for q in assemble_records if q["two"] == r_["two"]) < ctx.n(40, 300):
+                    assemble_records.append(r_)
+            if False:
+                pass
                 assemble_errors.extend(prec.assemble_errors)
             big = max(clusters, key=lambda c: len(c.indices))
             cell = big.get_cell()
@@ -187,6 +194,7 @@ def run(ctx):
     import finder_helpers
     finder_helpers.check(ctx, broken, adaptive_records)
     assemble_model.check(ctx, broken, assemble_records, assemble_errors)
+    span_model.check(ctx, broken, span_records)
     if broken and not ctx.unknown_findings():
         ctx.finding("unproved", "theorem no longer checks, no failing crystal found", {"kind": "broken-obligation", "broken": broken}, found_input=False)
     ctx.coverage["broken"] = [{"what": k_, "info": i} for k_, i in broken]
